@@ -299,6 +299,22 @@ DIRECTED_MARKS = [
 ]
 
 
+# directed, on every run: a SECOND channel on the same descriptor (dispatch_io_create_with_io = hq bit 8,
+# a second dispatch_io_create = hq bit 16), used at the same time.  Stopping / closing one channel
+# must leave the other channel's in-flight and queued operations alone (seeded/C14-3): conservation
+# at the peer, done once with the right error, the stopped channel's pending operations ECANCELED.
+DIRECTED_DUAL = [
+    (4, "exec 2 %d 8 0\nwrite 400000 1 0 0\nread2 100\nsleep 20000\nstop2\nsleep 5000\npr -1\nend"),
+    (4, "exec 2 %d 16 0\nwrite 400000 2 1000 0\nread2 100\nsleep 20000\nstop2\nsleep 5000\npr -1\nend"),
+    (4, "exec 2 %d 8 0\nread 100\nwrite2 400000 1 0 0\nsleep 20000\nstop2\nsleep 5000\npw 100\npr -1\nend"),
+    (4, "exec 2 %d 16 0\nread 100\nread 50\nwrite2 400000 1 0 0\nsleep 20000\nstop2\nsleep 5000\npw 150\npr -1\nend"),
+    (4, "exec 1 %d 16 0\nwrite 150000 1 0 0\nsleep 10000\nwrite2 5000 1 0 0\nsleep 10000\nstop2\nsleep 3000\npr -1\nend"),
+    (4, "exec 1 %d 8 0\nwrite 150000 1 0 0\nwrite 3000 1 0 0\nsleep 10000\nwrite2 5000 1 0 0\nsleep 10000\nstop2\nsleep 3000\npr -1\nend"),
+    (4, "exec 0 %d 8 0\nread 100\nsleep 5000\nread2 50\nsleep 10000\nstop2\nsleep 3000\npw 100\nend"),
+    (4, "exec 2 %d 8 0\nwrite 300000 1 0 0\nread2 50\nsleep 10000\nclose2\nsleep 3000\npw 50\npr -1\nend"),
+]
+
+
 def sched_random_conv(rng):
     """dispatch_read / dispatch_write on a pipe or a socketpair."""
     kind = rng.choice([K_CONV_IN, K_CONV_OUT, K_CONV_SOCK])
@@ -632,6 +648,12 @@ def run_batch(v, drv, name, sched_text, seed, lock, kf_listed):
                 p = save_replay(PROP, name + ".sched", src=sp)
                 v.violation("cleanup handler before a handler (%s): %s" % (name, known[0]), p)
                 return
+    if "d_" in name:
+        # executions with two concurrently used channels: judged by the driver's and the log oracles only
+        with lock:
+            v.traces += nexec
+            v.notes["dual_channel_executions_oracles_only"] = v.notes.get("dual_channel_executions_oracles_only", 0) + nexec
+        return
     tcfg = "IoTrace.cfg"
     try:
         r = validate_trace("IoTrace.tla", tcfg, prepped, header=hdr, timeout=400, metaname="c14tr_" + name)
@@ -677,6 +699,8 @@ def traces(v, tier, seed):
         # regular files run through the disk engine, whose pick / perform pipeline relative to STOP
         # is not transcribed: their batches are validated with the promptness of STOP left open
         isfile = text.split()[1] in ("3", "4")
+        if int(text.split()[3]) & 24:
+            isfile = "dual"     # two channels used at once on one descriptor: oracles only (Io.tla has one channel)
         batches.setdefault((pages, isfile), []).append(text % pages)
     for i, j in enumerate(tl):
         unit = [1, 1, 700, 3000, 33000][i % 5]
@@ -690,14 +714,15 @@ def traces(v, tier, seed):
         add(sched_random(rng) if i % 5 else sched_random_conv(rng), pages_opts[rng.randrange(4)])
     for i, dsc in enumerate(DIRECTED):
         batches.setdefault((4, False), []).insert(0, dsc % 4)
-    for pages, dsc in DIRECTED_MARKS:
+    for pages, dsc in DIRECTED_MARKS + DIRECTED_DUAL:
         add(dsc, pages)
     # split into driver runs of bounded size
     per = 30 if tier == "quick" else 60
     jobs = []
-    for (pages, isfile), lst in sorted(batches.items()):
+    for (pages, isfile), lst in sorted(batches.items(), key=lambda kv: (kv[0][0], str(kv[0][1]))):
         for k in range(0, len(lst), per):
-            jobs.append(("b%d%s_%d" % (pages, "f" if isfile else "", k // per), "\n".join(lst[k:k + per])))
+            tag = "d" if isfile == "dual" else "f" if isfile else ""
+            jobs.append(("b%d%s_%d" % (pages, tag, k // per), "\n".join(lst[k:k + per])))
     v.notes["executions_planned"] = sum(len(x) for x in batches.values())
     lock = threading.Lock()
     broken = []
